@@ -277,6 +277,72 @@ Section WithMinAda.
 End WithMinAda.
 
 (* ------------------------------------------------------------------------------------------- *)
+(* Diagnostics for the case distribution of the check: which branch the last helper call of a history took.
+     set_collateral_return_and_total   0 ok, 1 no collateral inputs, 2 sum overflows, 3 return exceeds the inputs (coin or asset),
+                                       4 assets left over, 5 min-ADA computation fails, 6 return below min ADA
+     set_total_collateral_and_return   10 ok with a return, 17 ok with nothing to return, 11 no collateral inputs, 12 sum overflows,
+                                       13 total exceeds the inputs, 15 min-ADA computation fails, 16 return below min ADA
+     percentage helper                 22 sum overflows, 28 balancing failed, 29 no fee, 23 fee*pct overflows, 30 + (inner - 10) otherwise
+     99 no helper in the history *)
+Section Branches.
+  Variable min_ada : output -> result N.
+  Definition branch_rt (ret : output) (b : builder) : N :=
+    if is_nil (b_collateral b) then 1 else
+    match total_value (b_collateral b) with
+    | Ok inp =>
+        match value_checked_sub inp (o_amount ret) with
+        | Ok total =>
+            if is_some (multiasset_of total) then 4 else
+            match min_ada ret with Ok m => if coin (o_amount ret) <? m then 6 else 0 | _ => 5 end
+        | _ => 3
+        end
+    | _ => 2
+    end.
+  Definition branch_tr (t : N) (addr : bytes) (b : builder) : N :=
+    if is_nil (b_collateral b) then 11 else
+    match total_value (b_collateral b) with
+    | Ok inp =>
+        if coin inp <? t then 13 else
+        match value_checked_sub inp (value_new t) with
+        | Ok ret =>
+            if is_some (multiasset_of ret) || (0 <? coin ret) then
+              match min_ada (output_new addr ret) with Ok m => if coin ret <? m then 16 else 10 | _ => 15 end
+            else 17
+        | _ => 13
+        end
+    | _ => 12
+    end.
+  Definition branch_p (pct : N) (addr : bytes) (bal_ok : bool) (fee_after : option N) (b : builder) : N :=
+    match total_value (b_collateral b) with
+    | Ok _ =>
+        if negb bal_ok then 28 else
+        match fee_after with
+        | None => 29
+        | Some fee =>
+            match (let* x := u64_mul fee pct in u64_add (x / 100) 1) with
+            | Ok required => 30 + (branch_tr required addr b - 10)
+            | _ => 23
+            end
+        end
+    | _ => 22
+    end.
+  Fixpoint last_branch (h : list op) (b : builder) (acc : N) : N :=
+    match h with
+    | [] => acc
+    | o :: h' =>
+        let acc' := match o with
+                    | OpReturnAndTotal r => branch_rt r b
+                    | OpTotalAndReturn t a => branch_tr t a b
+                    | OpPercent pct a ok f => branch_p pct a ok f b
+                    | _ => acc
+                    end in
+        last_branch h' (snd (step min_ada o b)) acc'
+    end.
+  Definition history_class (h : list op) : N * prov :=
+    (last_branch h builder_new 99, snd (run_prov min_ada h builder_new Free)).
+End Branches.
+
+(* ------------------------------------------------------------------------------------------- *)
 (* Known class (decidable on a history): the figures were computed by a helper and set_collateral replaced the
    collateral inputs afterwards *)
 Definition known_stale (p : prov) : bool := match p with Stale => true | _ => false end.
